@@ -220,7 +220,7 @@ def run(prog: Program, res: Result, tier: str) -> None:
     _header_algebra(prog, res, "R7")
 
     res.floor("R7", 9)
-    res.floor("R1", 17)
+    res.floor("R1", 15)
     res.floor("R2", 15)
     res.floor("R3", 40)
     res.floor("R4", 6)
